@@ -93,6 +93,15 @@ def generate(seed, tier="quick", label="mlmc"):
         sc["env"]["task_fail_one_in"] = r.choice([3, 8])
     # history: the SAME engine object has priced before, with a tighter tolerance (it then held more samples per level)
     sc["warm_rmse_factor"] = r.choice([0.5, 0.3]) if (variant == "adaptive" and not sc.get("misconfigured") and r.random() < 0.2) else None
+    # ... or a fixed-level run through the other entry point of the same engine object
+    sc["warm_kind"] = r.choice(["adaptive", "fixed_level"]) if sc["warm_rmse_factor"] else None
+    # now and then ONE very large level (a block-wise reduction, a narrow counter or an index type only shows beyond 2^16
+    # or 2^17 samples): fixed-level run, one or two levels, single process, no control
+    if r.random() < 0.008:
+        sc.update(variant="fixed", n0=r.choice([131073, 140001]), initial_level=0, maximum_level=r.choice([0, 0, 1]), controls=[],
+                  nproc=1, big_level=True, warm_rmse_factor=None, misconfigured=False)
+        sc["env"].pop("task_fail_one_in", None)
+        variant = "fixed"
     # boundary-targeted allocation (the allocation callable is a public constructor argument): instead of sampling
     # trajectories until one happens to fall next to the 1% gate, the world's allocation steers ONE level to a size n*
     # in [99k, 100k) and then asks for n* + k samples - more than 1% more than the level has, less than 1% of what is asked
@@ -178,6 +187,9 @@ def run(wd, sc, cap=60000):
     from rpylib.product.product import Product, ControlVariates
     from rpylib.product.underlying import Spot
 
+    if sc.get("big_level"):
+        cap = max(cap, 3 * sc["n0"] * (sc["maximum_level"] + 1))
+        wd.probes["mlmc.very_large_level"] += 1
     stubs.prepare_stub_world(wd, cap=cap)
     rec = {"sc": sc, "error": None, "aborted": None, "passes": [], "stats": None, "harness": None}
     maximum_level = sc["maximum_level"]
@@ -277,7 +289,11 @@ def run(wd, sc, cap=60000):
         if sc.get("warm_rmse_factor"):
             phase["warm"] = True
             try:
-                eng.price(product, sc["rmse"] * sc["warm_rmse_factor"])
+                if sc.get("warm_kind") == "fixed_level":
+                    eng.price_with_constant_mc_paths_and_level(product)
+                    wd.probes["mlmc.engine_reused_after_a_fixed_level_run"] += 1
+                else:
+                    eng.price(product, sc["rmse"] * sc["warm_rmse_factor"])
                 wd.probes["mlmc.engine_reused_after_a_tighter_run"] += 1
                 wd.faults["history.engine_reused"] += 1
             except HarnessError as e:
